@@ -155,6 +155,22 @@ func ite(c, a, b T) T {
 	return app("ite", c, a, b)
 }
 
+// slIdx: absolute index of element i of a slice with offset off. Arithmetic
+// on bound variables inside index positions defeats E-matching, so symbolic
+// sums go through the (axiomatised) function sidx.
+func slIdx(off, i T) T {
+	if off == "0" {
+		return i
+	}
+	if i == "0" {
+		return off
+	}
+	if isNumeral(off) && isNumeral(i) {
+		return add(off, i)
+	}
+	return app("sidx", off, i)
+}
+
 func sel(a, i T) T      { return app("select", a, i) }
 func sto(a, i, v T) T   { return app("store", a, i, v) }
 func add(a, b T) T      { return app("+", a, b) }
